@@ -250,3 +250,13 @@ func (c *Conn) AliveNow() bool {
 
 // CurrentLocked is Current for callers which hold the world lock.
 func (w *World) CurrentLocked() *Conn { return w.current() }
+
+// WritersParkedAnyLocked is WritersParkedAny for callers which hold the world lock.
+func (w *World) WritersParkedAnyLocked() bool {
+	for _, c := range w.Conns {
+		if c.writersParked > 0 {
+			return true
+		}
+	}
+	return false
+}
